@@ -29,8 +29,7 @@ SPEC = {
     ],
     "assumptions": [
         "API calls succeed (Create/Delete/List errors abort the run and are outside the model)",
-        "List returns ALL comments of the pull/merge request (true of the GitLab and BitBucket reporters, checked against paginating fakes; false of the GitHub reporter beyond "
-        "one API page: known finding C17-github-lists-first-page-only)",
+        "List returns ALL comments of the pull/merge request (true of the GitLab and BitBucket reporters, and, since fix 07993f0, of the GitHub reporter; checked against paginating fakes)",
         "law L1 is a premise of the generic theorems; it is proved for the GitLab model (lines >= 1, non-empty paths) and the GitHub model, "
         "and checked on the real functions for every generated (diff, pending comment)",
     ],
@@ -55,8 +54,8 @@ MANIFEST = {
             "modelled, proved idempotent/covering/duplicate-free under echo and without COMMIT-anchored comments, its two deviations from C17's shape are "
             "proved as refutations, and the real functions are compared with the model over multi-round runs against a fake comments API. IsEqual of both platforms is additionally asked about comments that differ from the one Create would post in exactly one field "
             "(no line at all = outdated, neighbouring lines, path, text), and the fake GitHub API serves outdated comments and a push history. The fake APIs paginate (GitLab X-* headers in every legal combination, GitHub Link header, BitBucket paged activities) and list PR files with, without a "
-            "patch and outside the PR. KNOWN FINDING: GithubReporter reads only the first page of review comments / files, so with more than 30 review comments its own "
-            "comments are posted again on every run (such scenarios are judged by the oracle only; the model assumes List returns everything). ONLY TESTED (oracle, not proved): the clauses on the real rounds, L1 on the real "
+            "patch and outside the PR. (GithubReporter used to read only the first page: found here, fixed by 07993f0; long review histories go through the model like every other scenario)."
+            " ONLY TESTED (oracle, not proved): the clauses on the real rounds, L1 on the real "
             "functions, GitHub's Summary/general comments (known finding: the general comment is repeated on every run).",
     "note": "Coq 8.16.1 kernel+VM, no axioms. Trusted: hand models (validated differentially each run, not verified from source); comment text not modelled "
             "in the in-memory rounds (ids of trimmed text); servers assumed to echo positions; API errors other than the skip signal outside the model; harness fakes.",
